@@ -226,6 +226,15 @@ Proof.
   all: destruct (case_union a b Ha Hb) as (H1 & H2 & H3); split; [exact H1|split; [exact H2|exact H3]].
 Qed.
 
+Theorem s_alg_par_spec kind a b :
+  Inv R ES a -> Inv R ES b -> alg_ok kind (rt_abs a) (rt_abs b) (s_alg_par kind a b).
+Proof.
+  intros Ha Hb. unfold s_alg_par.
+  destruct kind as [|[[p|p|]|[p|p|]|]];
+    first [apply case_difference; assumption | apply case_symdiff; assumption | apply case_inter_half; assumption | idtac].
+  all: destruct (alg_ok_swap3 _ _ _ (case_union_half b a Hb Ha)) as (H1 & H2 & H3); split; [exact H1|split; [exact H2|exact H3]].
+Qed.
+
 (* collecting the (cloned) results into a new set - the operator forms - keeps exactly them *)
 Lemma collect_perm l : NoDup (map ek l) -> collect l ≡ₚ l.
 Proof.
@@ -280,6 +289,10 @@ Proof.
   split; [tauto|]. intros H. split; [|exact H]. rewrite <- (Inv_len R ES a Ha), <- (Inv_len R ES b Hb).
   pose proof (dom_sub_size _ _ H). lia.
 Qed.
+
+Theorem s_par_is_subset_spec a b :
+  Inv R ES a -> Inv R ES b -> s_par_is_subset a b = true <-> dom_sub (rt_abs a) (rt_abs b).
+Proof. intros Ha Hb. apply forallb_contains; assumption. Qed.
 
 Theorem s_eq_spec a b :
   Inv R ES a -> Inv R ES b ->
